@@ -99,7 +99,8 @@ one open channel `bc.cur`. `St.norm` forgets which closed channel a thread or ha
 states with the same `norm` have the same enabled events and successors with the same `norm`
 (they are bisimilar), so the subset construction may merge them. `accepts_sound` holds for *any*
 `BEq` on states, so this choice cannot make the check unsound; it only keeps the state sets small
-when many calls overlap. -/
+when many calls overlap. A waiter parked on a closed channel is merged with a waiter at the top of
+its loop: both have exactly the critical section and the ctx branch enabled, with the same effect. -/
 
 def St.ren (s : St) (c : Nat) : Nat := if s.bc.closed c then 0 else 1
 
@@ -107,7 +108,7 @@ def TS.norm (s : St) : TS → TS
   | .holdRan k hs => .holdRan k (hs.map s.ren)
   | .mRan hs cb rt => .mRan (hs.map s.ren) cb rt
   | .done hs => .done (hs.map s.ren)
-  | .wParked p c => .wParked p (s.ren c)
+  | .wParked p c => if s.bc.closed c then .wInv p else .wParked p 1
   | ts => ts
 
 def St.norm (s : St) : Nat × Bool × List TS × List Nat × Bool :=
